@@ -76,9 +76,19 @@ pub fn generate(seed: u64, idx: u64) -> Scenario {
         }
         steps = n; // the typing is the session
     }
+    let mut hist: std::collections::BTreeMap<String, Vec<String>> = Default::default();
     while steps < n {
         let uri = rng.pick(&uris).clone();
         let text = s.text(&uri).cloned().unwrap_or_default();
+        if hist.get(&uri).and_then(|h| h.last()) != Some(&text) && text.len() < 20_000 {
+            hist.entry(uri.clone()).or_default().push(text.clone());
+        }
+        if rng.chance(50) {
+            // the life of a document beyond single edits: close/re-open, emptied and filled, undo/redo
+            let h = hist.get(&uri).map(|h| &h[..h.len() - 1]).unwrap_or(&[]).to_vec();
+            steps += gen::lifecycle_steps(&mut rng, &mut s, &uri, &h).max(1);
+            continue;
+        }
         match (family, rng.below(14)) {
             (_, 13) => {
                 // the boundaries of the text: everything deleted / replaced, offset 0, the end -
